@@ -168,6 +168,7 @@ class Run:
         self.pos = 0
         self.decisions: List[Decision] = []
         self.facts: Dict[Any, Fact] = {}
+        self.fact_terms: Dict[Any, Value] = {}
         self.kinds: Dict[Any, str] = {}
         self.notkinds: Dict[Any, set] = {}
         self.memo: Dict[Any, bool] = {}
@@ -228,6 +229,7 @@ class Run:
             if isinstance(v, App) and v.op == "len":
                 f.lo = 0
             self.facts[k] = f
+            self.fact_terms[k] = v
         return f
 
     def assume_range(self, v: Value, lo, hi):
@@ -743,7 +745,14 @@ class Interp:
                 pass
             it += 1
             if single:
-                raise BackedgeSig()
+                # the cut is at the *start* of a second iteration: a loop that is left through its condition
+                # (a sentinel / flag spelling of `return` inside `while True`) is followed out
+                if isinstance(st.test, ast.Constant) and st.test.value:
+                    raise BackedgeSig()
+                if self.truth(run, self.eval(run, st.test, env), st.test):
+                    raise BackedgeSig()
+                self.exec_block(run, st.orelse, env)
+                return
 
     def _is_outer_loop(self, st, env) -> bool:
         for a in self.index.ancestors(st):
@@ -1106,6 +1115,21 @@ class Interp:
 
     def ex_SetComp(self, run, node, env):
         return Tup(tuple(self._comp(run, node, env)))
+
+    def ex_DictComp(self, run, node, env):
+        pair = ast.copy_location(ast.Tuple(elts=[node.key, node.value], ctx=ast.Load()), node)
+        fake = ast.copy_location(ast.ListComp(elt=pair, generators=node.generators), node)
+        d = HDict()
+        for kv in self._comp(run, fake, env):
+            if not isinstance(kv, Tup):
+                raise Unsupported(f"dict comprehension over a symbolic iterable at {self.locof(node)}")
+            k, v = kv.items
+            k = self.resolve(run, k)
+            if isinstance(k, C):
+                d.items[k.v] = v
+            else:
+                d.sym_items.append((k, v))
+        return run.alloc(d)
 
     def _comp(self, run, node, env) -> List[Value]:
         out: List[Value] = []
